@@ -13,7 +13,8 @@ THEOREMS = [P + t for t in ("localize_disjoint", "localize_only_removes", "merge
                             "entry_rules_ok", "sbc_keeps_no_state", "pipeline_wellformed")] + \
     ["Matid.Props.Proto.accepted_periodicity"] + ["Matid.Props.SbcEntry." + t for t in ("fixup_inside", "scale_ge_one", "displacement_scaled")] + \
     ["Matid.Props.Adaptive." + t for t in ("measured_plus", "measured_minus", "adaptive_close")]
-TRUSTED = ["Lean 4 kernel", "axioms: propext, Classical.choice, Quot.sound at most (audited per run)",
+TRUSTED = ["stage models of the finder (SbcEntry, SpanGraph, BestBasis, AdaptiveCell, WithinBasis, ProtoAssemble, ProtoDecision, Region) with their theorems as obligations; tied by recorded-call correspondence in THIS run: the answers of sub-functions modelled elsewhere (get_matches, get_matches_simple, get_positions_within_basis, _find_best_basis inside the span-graph replay) are recorded and handed to the model as oracle data (recorders in harness/sbc_common.py, harness/region_model.py)", "rule translators gen_sbc_rule / gen_proto_rule / gen_region_rule / gen_assemble_rule / gen_dim_rule (AST facts; a harmless refactoring can flip one)",
+           "Lean 4 kernel", "axioms: propext, Classical.choice, Quot.sound at most (audited per run)",
            "hand-written model MatidModel/SBC.lean tied by (a) direct drive of _merge_clusters/_localize_clusters/_clean_clusters with synthetic clusters and (b) recorded finder histories of real get_clusters runs",
            "the periodic finder is a parameter of the model (its outputs are arbitrary data in the theorems); DBSCAN contract D1 for the components",
            "runtime clauses (returns normally, input untouched, determinism, only ValueError) are sampled, not proved"]
